@@ -64,13 +64,14 @@ def check_sent(role, rec, P, data, case):
         raise Violation('C10:command-broken:%s' % role, 'command field %r' % (rec['fields'].get(0x0100),), case)
 
 
-def make_msg(data):
+def make_msg(data, as_file=False):
+    import io
     from pynetdicom2 import dimsemessages
     msg = dimsemessages.CFindRSPMessage()
     msg.sop_class_uid = SOP
     msg.message_id_being_responded_to = 3
     msg.status = 0xFF00
-    msg.data_set = data
+    msg.data_set = io.BytesIO(data) if (as_file and data) else data
     return msg
 
 
@@ -82,7 +83,7 @@ def run_acceptor_case(L, P, lengths):
     def service(asce, ctx, msg):
         i = msg.message_id
         before = len(asce.dul.sent)
-        asce.send(make_msg(datas[i]), ctx.id)
+        asce.send(make_msg(datas[i], as_file=i % 2 == 1), ctx.id)
         sent_records.append((i, asce.dul.sent[before:]))
     service.sop_classes = [SOP]
     ae = fd.make_ae('SRV', [TS], L)
@@ -150,9 +151,9 @@ def run_requestor_case(L, P, lengths):
                     raise Violation('C10:no-maxlen:requestor', 'A-ASSOCIATE-RQ carries %d Maximum Length sub-items'
                                     % len(subs), case)
                 check_announced('requestor', L, subs[0]['max'], case)
-                for d in datas:
+                for di, d in enumerate(datas):
                     before = len(dul.sent)
-                    assoc.send(make_msg(d), 1)
+                    assoc.send(make_msg(d, as_file=di % 2 == 0), 1)
                     recs = dul.sent[before:]
                     if len(recs) != 1:
                         raise Violation('C10:nothing-sent:requestor', 'send queued %d primitives' % len(recs), case)
@@ -200,7 +201,7 @@ def run(ctx):
     ctx.rule = ('exhaustive grid: (own configured maximum, peer-announced maximum) over %d x %d boundary values '
                 '(0 = no limit .. 2^32-1) x {acceptor, requestor} x data lengths {none, 1, f-1, f, f+1, 3f+1} around '
                 'the fragment size the peer\'s value implies (capped at %d bytes); plus Hypothesis pairs; after real '
-                'negotiation through AssociationAcceptor.handle / request_association every message is sent with '
+                'negotiation through AssociationAcceptor.handle / request_association every message (data set given as bytes or as a file-like object, alternating) is sent with '
                 'Association.send; non-trivial = the two values differ or one is 0'
                 % (len(GRID), len(GRID), CAP))
     ctx.assumptions = ['send limit = peer-announced value, 0 = unlimited; the implementation may tighten it, never '
